@@ -80,7 +80,13 @@ CONDITIONS = {
 
 INTS = [0, 1, 7, 100, 99999, 100000, 2**31 - 1, 10**12, -1, -99999]
 FLOATS = [0.0, 1e-05, 0.5, 1.0, 0.1 + 0.2, 6.06273418136464e-06, 0.0001220703125, 1e22, 1.5, -0.1, 1e-300,
-          123456.789, 5e-324, 1.7976931348623157e308, math.inf]
+          123456.789, 99999.5, -999.25, 2.5, 7.0, 100000.0, -3.0, 9007199254740992.0,
+          5e-324, 1.7976931348623157e308, math.inf]
+# The admissible values of a parameter are the values ITS CONDITIONS accept, whatever the Python type of its
+# default: a parameter declared int whose only condition is "a number" (missing_data) admits 99999.5 and 7.0, a
+# parameter declared float admits 7.  What the quick tier keeps of each class (in this order of preference):
+NON_INTEGERS = [99999.5, 2.5, 1.5, 0.5]  # a non-integer number, preferably with an integer part
+WHOLE_FLOATS = [7.0, 100000.0, 1.0, 0.0]  # an integer given as a float
 STRINGS_FREE = ['3.2.14', '', 'a"b\\c', 'café — ü', 'line1\nline2', '# not a comment', '  padded  ']
 SPELL_TRUE = ['s:True', 's:true', 's:Yes', 's:yes']
 SPELL_FALSE = ['s:False', 's:false', 's:No', 's:no']
@@ -117,9 +123,14 @@ def table(tier: str) -> list[dict]:
             adm = [x for x in pool if ok(x)]
             ref = [x for x in pool if not ok(x)] + ['abc']
             if quick:
-                keep_a = [x for x in adm if isinstance(x, int)][:1] + [x for x in adm if isinstance(x, float)][-2:]
+                dflt = p.value if not hasattr(p.value, 'item') else p.value.item()
+                keep_a = ([x for x in adm if isinstance(x, int) and tok(x) != default][:1]
+                          + [x for x in NON_INTEGERS if _has(adm, x)][:1]
+                          + [x for x in WHOLE_FLOATS if _has(adm, x) and not (x == dflt and isinstance(dflt, float))][:1]
+                          + [x for x in adm if isinstance(x, float)][-1:])
                 adm = keep_a or adm[:2]
-                ref = ref[:1] + ['abc']
+                # (an integer given as a float, where the conditions demand an integer)
+                ref = ref[:1] + ([x for x in WHOLE_FLOATS if _has(ref, x)][:1] if kind == 'int' else []) + ['abc']
         adm_t = _uniq([default] + [tok(x) for x in adm]) if _admits_default(p, conds) else _uniq([tok(x) for x in adm])
         ref_t = [t for t in _uniq([tok(x) for x in ref]) if t not in adm_t]
         if kind == 'bool':
@@ -138,6 +149,11 @@ def table(tier: str) -> list[dict]:
         rows.append(dict(key=f'{p.section}/{p.name}', kind=kind, **{'def': default}, adm=adm_t, ref=ref_t, fok=fok, fbad=fbad,
                          conditions=conds))
     return rows
+
+
+def _has(xs, x) -> bool:
+    """x is in xs as a value of the same class (7.0 is not 7)"""
+    return any(type(y) is type(x) and y == x for y in xs)
 
 
 def _admits_default(p, conds) -> bool:
@@ -227,7 +243,7 @@ def _get_all(p):
 
 
 def replay(item: dict) -> dict:
-    """item: dict(hist=emitted record, rows=table rows, fname=.., tamper=None|'flip_bool')
+    """item: dict(hist=emitted record, rows=table rows, fname=.., tamper=None|'flip_bool'|'truncate')
     -> dict(n=.., mismatches=[...], sample=..)"""
     from biogeme.parameters import Parameters
     import biogeme.exceptions as excep
@@ -249,6 +265,10 @@ def replay(item: dict) -> dict:
                 section, name = r['key'].split('/')
                 v = untok(r['def'])
                 doc.setdefault(section, {})[name] = ('True' if v else 'False') if isinstance(v, bool) else v
+            for key, t in (hist.get('preset') or {}).items():
+                section, name = key.split('/')
+                v = untok(t)
+                doc[section][name] = int(v) if item.get('tamper') == 'truncate' else v   # (negative control: the integer part only)
             if item.get('tamper') == 'flip_bool':
                 doc['Output']['generate_html'] = 'False'
             write_toml(fname, doc)
